@@ -63,17 +63,9 @@ def run_seq(case, acc):
     # change of ownership, edited in place in the same automaton: the first
     # environment variable is handed to the component, then the first
     # component variable to the environment
-    for src, dst in (('env', 'sys'), ('sys', 'env')):
-        if not aut.varlist[src]:
-            continue
-        v = aut.varlist[src][0]
-        aut.varlist[src].remove(v)
-        aut.varlist[dst].append(v)
-        c2 = dict(case)
-        c2['env'] = [[n, h] for n in aut.varlist['env']
-                     for m, h in case['env'] + case['sys'] if m == n]
-        c2['sys'] = [[n, h] for n in aut.varlist['sys']
-                     for m, h in case['env'] + case['sys'] if m == n]
+    # ... and finally the players exchange all their variables
+    for v, dst, c2 in fam.ownership_changes(aut, case):
+        src = v
         gm2 = fam.GameModel(aut, c2)
         P = [gm2.state_table(u) for u in aut.win['<>[]']]
         G = [gm2.state_table(u) for u in aut.win['[]<>']]
